@@ -72,6 +72,11 @@ def gen_ops(rng, paths, n, dangling=False):
             ops.append(["fetch_paths", ["/" + "/".join(p) for p in ps]])
         else:
             ops.append(["reopen"])
+    if rng.random() < 0.5 and len(stored) >= 2:
+        # directed: a path goes from one key to another and back (a revert), then is resolved
+        p = "/" + "/".join(rng.choice(paths))
+        k1, k2 = rng.sample(sorted(stored), 2)
+        ops += [["sync", [[p, k1]]], ["sync", [[p, k2]]], ["sync", [[p, k1]]], ["fetch_paths", [p]]]
     return ops
 
 
